@@ -680,6 +680,20 @@ func genH265PayCase(t *rapid.T) *H265PayCase {
 		}
 		c.Calls = append(c.Calls, units)
 	}
+	if rapid.IntRange(0, 9).Draw(t, "manysmall") == 6 {
+		// an access unit of many small units (VPS, SPS, PPS, SEIs, slice segments): 7-40 of them, a few bytes each,
+		// at an MTU that lets many share one aggregation packet
+		c.MTU = uint16(rapid.SampledFrom([]int{100, 300, 1200, 9000}).Draw(t, "manymtu"))
+		var units []HNAL
+		for i, k := 0, rapid.SampledFrom([]int{7, 8, 9, 10, 16, 17, 32, 33, 40}).Draw(t, "manyk"); i < k; i++ {
+			u := genHNAL(t, int(c.MTU), c.AddDONL, false)
+			u.Len = rapid.IntRange(3, 9).Draw(t, "manylen")
+			units = append(units, u)
+		}
+		c.Calls = [][]HNAL{units}
+
+		return c
+	}
 	if rapid.IntRange(0, 59).Draw(t, "jumbo") == 0 {
 		c.MTU = uint16(rapid.SampledFrom([]int{1200, 1500, 9000, 40000, 65535}).Draw(t, "jumbomtu"))
 		call := c.Calls[rapid.IntRange(0, len(c.Calls)-1).Draw(t, "jumbocall")]
@@ -754,7 +768,7 @@ func genH265DecCase1(t *rapid.T) *H265DecCase {
 	return c
 }
 
-const ruleC14 = "payloader: 1-2 calls of 1-6 HEVC NAL units (types 0-47, layer 0-63, TID 1-7, F=1 rarely, sizes 3 bytes to several MTUs biased to MTU-4..MTU+4 and 2+k*(MTU-3)+-1 (one case in 60 holds a unit of 65530-131072 bytes), bodies free of start-code emulation), MTU >= 4 (>= 6 with DONL) biased to the floor and small values, SkipAggregation x AddDONL; every payload is parsed by an independent RFC 7798 parser and by H265Packet (all accessors must agree): <= MTU, single = unit (+DONL), AP type 48/F=0/min layer/min TID/>=2 units, FU trains >=2 with S/E placement and FuType/F/layer/TID preserved, DONL placement, IsPartitionHead, byte-exact reassembly. decoder: reference-built single/AP(2-6 units)/FU(start,middle,end)/PACI(+TSCI) payloads with and without DONL/DOND and every truncation: too-short ones rejected, others read field by field as the reference parser; half of the cases decode 1-3 other payloads through the same H265Packet first, and the payloader check decodes every stream through one H265Packet besides a fresh one per payload (readings must agree, and what Packet() returned for earlier payloads must still read the same at the end). accessors: all 2^16 payload headers, 2^8 FU headers, 2^16 PACI field words, TSCI triples (2^24 in thorough). Non-trivial = AP together with an FU train, unit length within the single-packet threshold window, AP>=3 units with DONL, PACI with TSCI, truncation, every accessor value; distinct = FNV-64 of the JSON case"
+const ruleC14 = "payloader: 1-2 calls of 1-6 (one case in ten: one call of 7-40 small) HEVC NAL units (types 0-47, layer 0-63, TID 1-7, F=1 rarely, sizes 3 bytes to several MTUs biased to MTU-4..MTU+4 and 2+k*(MTU-3)+-1 (one case in 60 holds a unit of 65530-131072 bytes), bodies free of start-code emulation), MTU >= 4 (>= 6 with DONL) biased to the floor and small values, SkipAggregation x AddDONL; every payload is parsed by an independent RFC 7798 parser and by H265Packet (all accessors must agree): <= MTU, single = unit (+DONL), AP type 48/F=0/min layer/min TID/>=2 units, FU trains >=2 with S/E placement and FuType/F/layer/TID preserved, DONL placement, IsPartitionHead, byte-exact reassembly. decoder: reference-built single/AP(2-6 units)/FU(start,middle,end)/PACI(+TSCI) payloads with and without DONL/DOND and every truncation: too-short ones rejected, others read field by field as the reference parser; half of the cases decode 1-3 other payloads through the same H265Packet first, and the payloader check decodes every stream through one H265Packet besides a fresh one per payload (readings must agree, and what Packet() returned for earlier payloads must still read the same at the end). accessors: all 2^16 payload headers, 2^8 FU headers, 2^16 PACI field words, TSCI triples (2^24 in thorough). Non-trivial = AP together with an FU train, unit length within the single-packet threshold window, AP>=3 units with DONL, PACI with TSCI, truncation, every accessor value; distinct = FNV-64 of the JSON case"
 
 func TestC14(t *testing.T) {
 	r := begin(t, "C14", "exploration", ruleC14)
